@@ -54,9 +54,12 @@ def check(emb, a, b):
     A0, B0 = [S.ev_tuple(e) for e in A], [S.ev_tuple(e) for e in B]
     try:
         out = union_no_overlap(A, B)
+        again = union_no_overlap(A, B)  # same list objects a second time (state must not carry over)
     except Exception as e:
         return [("raised", f"{type(e).__name__}: {e}")], None
     probs = []
+    if [S.ev_tuple(e) for e in out] != [S.ev_tuple(e) for e in again]:
+        probs.append(("second-call-with-same-lists-differs", f"first {[S.ev_tuple(e)[1:3] for e in out]} second {[S.ev_tuple(e)[1:3] for e in again]}"))
     if [S.ev_tuple(e) for e in A] != A0 or [S.ev_tuple(e) for e in B] != B0:
         probs.append(("input-modified", "an input list or event changed"))
     got = []
